@@ -378,3 +378,55 @@ def same_values_builder(g, E, do, length):
     if A2 is not None:
         do(_req(g, [{"op": "destroy", "uid": A2}], ver, user="alice"))
         do(_req(g, [{"op": "get", "uid": A, "format": None, "compression": False, "wrap": None}], ver, user="alice"))
+
+
+def dead_in_batch_builder(g, E, do, length):
+    """ONE batch: an operation on X, Destroy X, the same (and other) operations on X again - and the same after the
+    batch, by the owner and by another client.  Destroyed is destroyed from the very next item on, whatever an earlier
+    item of the batch had already looked up (mon_c07 follows deaths through the items of a batch)."""
+    r = g.r
+    ver = g.ch([10, 12, 13, 14, 14, 20])
+    raw_do = do
+
+    def do(j):
+        o = raw_do(j)
+        if j.get("cmd") == "req":
+            raw_do({"cmd": "dump"})
+        return o
+
+    def key(names=()):
+        attrs = [_A("Cryptographic Algorithm", "enum", 3), _A("Cryptographic Length", "int", 128),
+                 _A("Cryptographic Usage Mask", "int", 0x0C | 0x80 | 0x100 | 0x200)]
+        attrs += [_A("Name", "name", n, i, t=1) for i, n in enumerate(names)]
+        return _uid(do(_req(g, [{"op": "create", "otype": 2, "tmpl": {"tnames": 0, "attrs": attrs},
+                                 "crypto": {"k": "ok", "t": hexof(16, rnd=r)}}], ver)))
+    for _ in range(max(2, min(length, 4))):
+        X = key(["x-%d" % r.randrange(1000)])
+        Y = key()
+        if X is None or Y is None:
+            return
+        ops = [
+            lambda: {"op": "get", "uid": X, "format": None, "compression": False, "wrap": None},
+            lambda: {"op": "getAttributes", "uid": X, "names": []},
+            lambda: {"op": "getAttributes", "uid": X, "names": ["Name", "State"]},
+            lambda: {"op": "getAttributeList", "uid": X},
+            lambda: {"op": "activate", "uid": X},
+            lambda: {"op": "destroy", "uid": X},
+            lambda: {"op": "modifyAttribute", "uid": X, "attr": _A("Name", "name", "renamed", 0, t=1), "current": None, "new": None},
+            lambda: {"op": "deriveKey", "otype": 2, "uids": [X],
+                     "tmpl": {"tnames": 0, "attrs": [_A("Cryptographic Algorithm", "enum", 3), _A("Cryptographic Length", "int", 128),
+                                                     _A("Cryptographic Usage Mask", "int", 12)]},
+                     "crypto": {"k": "ok", "t": hexof(16, rnd=r)}},
+        ]
+        if ver >= 12:
+            ops.append(lambda: {"op": "mac", "uid": X, "alg": 8, "data": True, "crypto": {"k": "ok", "t": hexof(20, rnd=r)}})
+        k1 = g.ch(ops[:4] + ops[6:])          # an operation that leaves X Pre-Active (so that Destroy is allowed)
+        again = [k1] + [g.ch(ops) for _ in range(g.ch([0, 1, 2]))]
+        r.shuffle(again)
+        items = [k1(), {"op": "destroy", "uid": X}] + [f() for f in again]
+        if g.p(0.3):
+            items.insert(0, {"op": "getAttributeList", "uid": Y})
+        do(_req(g, items, ver, bopt=g.ch([1, 1, 2])))
+        for user in ("alice", "bob"):
+            do(_req(g, [g.ch(ops)()], ver, user=user))
+        do(_req(g, [{"op": "locate", "max": None, "offset": None, "attrs": []}], ver))
